@@ -240,9 +240,10 @@ CLAIMED.update({
             "unloc-between; chromosome list: one line per rank-1/2 scaffold, line shape, and for chromosomes listed as main "
             "scaffold + unlocs localised = no exactly for the unlocs with the chromosome's name (csv_groups). Multi-haplotype "
             "grouping and uniqueness beyond the stated conditions are decided by the correspondence of the pipeline model and "
-            "the oracle on every case; the CSV text and the chromosome report are also compared. Two known findings, both also "
+            "the oracle on every case; the CSV text and the chromosome report are also compared. Two known findings that are also "
             "theorems about the model: an orphan unloc is listed as localised; two same-named tagged scaffolds of different "
-            "haplotypes land in one tag-keyed assembly (found by the uniqueness proof, reproduced on /repo). " + PIPE,
+            "haplotypes land in one tag-keyed assembly (found by the uniqueness proof, reproduced on /repo). A third known finding: unlocs are numbered before the "
+            "overhang resolution, so an Unloc piece emptied by it leaves a hole in <chr>_unloc_1..m (corpus case, signature in known_findings.json). " + PIPE,
             NOTE, "Coq proof (label invariant through the pipeline, sorting lemmas, fold invariants) + in-Coq correspondence + naming/CSV oracle (partial for multi-haplotype)",
             "DESIGN.md 6/C10, 13"),
     "C11": ("Coq theorems: C11_breaks_joins, END TO END through `remap`: reported breaks = number of distinct input adjacencies (unordered "
